@@ -227,6 +227,7 @@ func TestC30_Fixed(t *testing.T) {
 	rec := ev.Start(t, "C30")
 	witnessF50(rec)
 	witnessF52(rec)
+	witnessF92(rec)
 	for _, c := range lrCases {
 		v := variants.Get(c.variant)
 		v.MustInit()
@@ -337,6 +338,9 @@ func checkLeafrefVerdict(fatalf func(string, ...interface{}), rec *ev.Rec, v *mo
 			if rec.Excuse(fLLZeroID, onlyZeroLLMembers(m)) {
 				continue
 			}
+			if rec.Excuse(fLrStarID, onlyPredicateDangling(dangling) && m.AnyVal(func(_ *model.FieldInfo, x model.Val) bool { return x.K == model.KStr && x.S == "*" })) {
+				continue
+			}
 			fatalf("Validate(%s) = nil although %d leafref value(s) are not in their target node set (variant %s, %s):\n  %s\ntree:\n%s",
 				mode.name, len(dangling), v.Name, what, strings.Join(dangling, "\n  "), m.Dump())
 		case err != nil && !wantErr:
@@ -356,6 +360,16 @@ func checkLeafrefVerdict(fatalf func(string, ...interface{}), rec *ev.Rec, v *mo
 			}
 		}
 	}
+}
+
+// onlyPredicateDangling: every dangling reference belongs to a leafref whose path has a predicate.
+func onlyPredicateDangling(dangling []string) bool {
+	for _, d := range dangling {
+		if !strings.Contains(d, "pick-sub") && !strings.Contains(d, "target-sub") {
+			return false
+		}
+	}
+	return len(dangling) > 0
 }
 
 // ---- generated cases --------------------------------------------------------------------------------------
@@ -788,11 +802,12 @@ func TestC30(t *testing.T) {
 	witnessF1(rec)
 	witnessF50(rec)
 	witnessF52(rec)
+	witnessF92(rec)
 	cnt := newCounter()
 	cases := 0
 	rapid.Check(t, func(rt *rapid.T) {
 		cases++
-		v := th.PickVariant(rt, "vtu", "vtw", "vocc", "vocu")
+		v := th.PickVariant(rt, "vtu", "vtw", "vocc", "vocu", "vtu2")
 		a := activeOf(rec)
 		memo := map[*model.FieldInfo]bool{}
 		targets := leafrefTargets(v)
